@@ -425,15 +425,21 @@ theorem mem_runs_fst {α} [DecidableEq α] (l : List α) : ∀ p ∈ runs l, p.1
           simp [this]
     · simp at hp; subst hp; simp
 
+theorem filter_cells_map {α} (g : α → Xml) (l : List α) (h : ∀ a, (g a).tag = "table:table-cell") :
+    (l.map g).filter (fun c => c.tag == "table:table-cell" || c.tag == "table:covered-table-cell") = l.map g := by
+  induction l with
+  | nil => rfl
+  | cons a as ih => simp [h a, ih]
+
 theorem odsRow_encodeRow (f : OdsFeatures) (row : List Str) (n : Nat) (hrow : row.length < 10 ^ maxStrDigits)
     (hcells : ∀ t ∈ row, t.length < 10 ^ maxStrDigits) :
     odsRow (encodeRow f row n) = some (some (row.map some)) := by
-  unfold odsRow encodeRow Xml.childrenTagged Xml.children
+  unfold odsRow encodeRow Xml.children
   by_cases hc : f.colRuns = true
   · simp only [hc, if_true]
     have hmap : (runs row).map (fun x => match x with | (t, n) => encodeCell f t n) = (runs row).map (fun p => encodeCell f p.1 p.2) := by
       apply List.map_congr_left; intro p _; rfl
-    rw [hmap, filter_tag_map (fun p : Str × Nat => encodeCell f p.1 p.2) "table:table-cell" _ (fun a => encodeCell_tag f a.1 a.2)]
+    rw [hmap, filter_cells_map (fun p : Str × Nat => encodeCell f p.1 p.2) _ (fun a => encodeCell_tag f a.1 a.2)]
     rw [odsRow_cells_encoded f (runs row) (runs_pos row)
       (fun p hp => digits_within_limit p.2 (Nat.lt_of_le_of_lt (runs_le row p hp) hrow))
       (fun p hp => hcells p.1 (mem_runs_fst row p hp)), expandRuns_runs]
@@ -441,7 +447,7 @@ theorem odsRow_encodeRow (f : OdsFeatures) (row : List Str) (n : Nat) (hrow : ro
     simp only [hcf, Bool.false_eq_true, if_false]
     have hmap : row.map (fun t => encodeCell f t 1) = (row.map (fun t => (t, 1))).map (fun p => encodeCell f p.1 p.2) := by
       simp [List.map_map, Function.comp_def]
-    rw [hmap, filter_tag_map (fun p : Str × Nat => encodeCell f p.1 p.2) "table:table-cell" _ (fun a => encodeCell_tag f a.1 a.2)]
+    rw [hmap, filter_cells_map (fun p : Str × Nat => encodeCell f p.1 p.2) _ (fun a => encodeCell_tag f a.1 a.2)]
     rw [odsRow_cells_encoded f _ (by intro p hp; obtain ⟨t, _, rfl⟩ := List.mem_map.mp hp; simp)
       (by intro p hp; obtain ⟨t, _, rfl⟩ := List.mem_map.mp hp; show (digits 1).length ≤ maxStrDigits; unfold digits; simp [maxStrDigits])
       (by intro p hp; obtain ⟨t, ht, rfl⟩ := List.mem_map.mp hp; exact hcells t ht)]
